@@ -247,7 +247,10 @@ SexLevelsScope(r) == /\ NoErr(r) /\ CleanLevels(r) /\ UsedIsTruth(r)
 SexLevelsOK(r) ==
     LET E == LevelBound(r)
         autos == SelectSeq(r.out, LAMBDA o : IsAutoId(o.c))
-        base == Median([p \in RIdx(autos) |-> ObsFx(autos[p].lfx)])       \* the autosomal baseline of the reference
+        \* the autosomal baseline of the reference: the band [lo, hi] that holds every autosomal bin
+        lo == FoldLeft(LAMBDA acc, o : ZMin(acc, ObsFx(o.lfx)), ObsFx(autos[1].lfx), autos)
+        hi == FoldLeft(LAMBDA acc, o : ZMax(acc, ObsFx(o.lfx)), ObsFx(autos[1].lfx), autos)
+        dx == FxFromInt(IF r.hapx THEN -1 ELSE 0)
     IN /\ \A p \in RIdx(r.out) : r.out[p].lfx.fin
        /\ \A p \in RIdx(r.out) :
             LET o == r.out[p]
@@ -257,7 +260,8 @@ SexLevelsOK(r) ==
                \* every bin within the bound of its neutral level ...
                \/ /\ FxCloseAbs(lv, FxFromInt(FlatLevel(OutRow(o), r.hapx)), E)
                   \* ... hence chrX 1.0 below the autosomal baseline for a male reference, on it for a female one
-                  /\ cls = "X" => FxCloseAbs(lv, ZAdd(base, FxFromInt(IF r.hapx THEN -1 ELSE 0)), ZAdd(E, E))
+                  /\ cls = "X" => (autos = <<>> \/ (/\ FxCloseAbs(lv, ZAdd(lo, dx), ZAdd(E, E))
+                                                     /\ FxCloseAbs(lv, ZAdd(hi, dx), ZAdd(E, E))))
 (* normals that differ only in sequencing depth: every file is the first one plus a constant *)
 DepthOnly(r) ==
     /\ NSamples(r) >= 2 /\ ~RowMismatch(r)
@@ -325,64 +329,72 @@ Clauses(op) ==
       [] op = "gc"     -> {"gc_noerr", "gc_value", "rmask_value"}
       [] OTHER         -> {}
 
-Holds(c, r) ==
+(* Holds(c, r) == Applies(c, r) => Claim(c, r): the antecedent (which records a clause speaks about) and the claim   *)
+(* are kept apart so that the trace specification can count a clause as *checked* only where it applies              *)
+Applies(c, r) ==
+    CASE c = "pool_reject_mismatch" -> CoordMismatch(r)
+      [] c = "pool_accepts_matching" -> ~RowMismatch(r)
+      [] c = "pool_bins" -> NoErr(r) /\ ~CoordMismatch(r)
+      [] c = "pool_sexes_given" -> r.given # "none" /\ r.used # <<>>
+      [] c = "pool_sexes_inferred" -> r.given = "none" /\ NoErr(r) /\ InferRegime(r)
+      [] c \in {"pool_log2_orchestration", "pool_spread_orchestration"} -> ExactScope(r) /\ r.hasgraph
+      [] c \in {"pool_log2_estimator", "pool_spread_estimator"} -> EstimatorScope(r)
+      [] c = "pool_depth_only" -> NoErr(r) /\ DepthOnly(r)
+      [] c = "pool_sex_levels" -> SexLevelsScope(r)
+      [] c = "pool_gc" -> NoErr(r) /\ r.fa # <<>> /\ ~CoordMismatch(r) /\ (r.hasgc \/ r.hasrm)
+      [] c \in {"flat_noerr", "gc_noerr"} -> TRUE
+      [] c \in {"flat_bins", "flat_log2", "gc_value", "rmask_value"} -> NoErr(r)
+      [] c \in {"flat_gc", "flat_rmask"} -> NoErr(r) /\ r.fa # <<>>
+Claim(c, r) ==
     CASE (* "files whose bins differ are rejected" *)
-         c = "pool_reject_mismatch" -> CoordMismatch(r) => ~NoErr(r)
+         c = "pool_reject_mismatch" -> ~NoErr(r)
          (* ... and only those: files with identical bins make a reference *)
-      [] c = "pool_accepts_matching" -> ~RowMismatch(r) => NoErr(r)
+      [] c = "pool_accepts_matching" -> NoErr(r)
          (* "A reference built from coverage files has exactly their bins" (genomic order; gene labels too when the   *)
          (* files agree on them)                                                                                    *)
-      [] c = "pool_bins" -> (NoErr(r) /\ ~CoordMismatch(r)) =>
-                                BinsExactly(OutRows(r), CohortBins(r, "t"), CohortBins(r, "a"), ~RowMismatch(r))
+      [] c = "pool_bins" -> BinsExactly(OutRows(r), CohortBins(r, "t"), CohortBins(r, "a"), ~RowMismatch(r))
          (* sexes given: every sample is treated as the sex the caller states *)
-      [] c = "pool_sexes_given" -> (r.given # "none" /\ r.used # <<>>) =>
-                                       (Len(r.used) = NSamples(r) /\ \A j \in RIdx(r.used) : r.used[j] = GivenCode(r))
+      [] c = "pool_sexes_given" -> Len(r.used) = NSamples(r) /\ \A j \in RIdx(r.used) : r.used[j] = GivenCode(r)
          (* sexes inferred: at clean levels the inferred sex is the sample's sex *)
-      [] c = "pool_sexes_inferred" -> (r.given = "none" /\ NoErr(r) /\ InferRegime(r)) => UsedIsTruth(r)
+      [] c = "pool_sexes_inferred" -> UsedIsTruth(r)
          (* "each bin's log2 and spread are Tukey's biweight location and midvariance -- over the samples plus one     *)
          (* neutral pseudo-sample -- of each sample's log2 after median-centring and shifting its sex chromosomes to    *)
          (* the requested reference sex": (i) orchestration, exact: the reported values are what the package's own      *)
          (* estimators returned for exactly that column (and, for the spread, about exactly that log2)                  *)
-      [] c = "pool_log2_orchestration" -> (ExactScope(r) /\ r.hasgraph) =>
-                                              ForEveryColumn(r, LAMBDA o, col : LocLogged(r, o, col))
-      [] c = "pool_spread_orchestration" -> (ExactScope(r) /\ r.hasgraph) =>
-                                                ForEveryColumn(r, LAMBDA o, col : VarLogged(r, o, col))
+      [] c = "pool_log2_orchestration" -> ForEveryColumn(r, LAMBDA o, col : LocLogged(r, o, col))
+      [] c = "pool_spread_orchestration" -> ForEveryColumn(r, LAMBDA o, col : VarLogged(r, o, col))
          (* (ii) estimator: the same values are the published biweight location / midvariance of that column, 10^-6 *)
-      [] c = "pool_log2_estimator" -> EstimatorScope(r) =>
-                                          ForEveryColumn(r, LAMBDA o, col : LocationOK(o.lfx, FxOfQ(col, 4 * r.U)))
-      [] c = "pool_spread_estimator" -> EstimatorScope(r) =>
-                                            ForEveryColumn(r, LAMBDA o, col :
-                                                o.lfx.fin /\ MidvarianceOK(o.spfx, FxOfQ(col, 4 * r.U), ObsFx(o.lfx)))
+      [] c = "pool_log2_estimator" -> ForEveryColumn(r, LAMBDA o, col : LocationOK(o.lfx, FxOfQ(col, 4 * r.U)))
+      [] c = "pool_spread_estimator" -> ForEveryColumn(r, LAMBDA o, col :
+                                            o.lfx.fin /\ MidvarianceOK(o.spfx, FxOfQ(col, 4 * r.U), ObsFx(o.lfx)))
          (* "normals that differ only in sequencing depth reproduce their common profile with spread ~ 0" *)
-      [] c = "pool_depth_only" -> (NoErr(r) /\ DepthOnly(r)) => DepthOnlyOK(r)
+      [] c = "pool_depth_only" -> DepthOnlyOK(r)
          (* "for any mix of male and female normals chrX lies 1.0 below the autosomal baseline for a male reference  *)
          (* and on it for a female one, with chrY at the single-copy level -1.0 in both"                              *)
-      [] c = "pool_sex_levels" -> SexLevelsScope(r) => SexLevelsOK(r)
+      [] c = "pool_sex_levels" -> SexLevelsOK(r)
          (* gc / rmask columns computed from the FASTA are those of each bin's sequence *)
-      [] c = "pool_gc" -> (NoErr(r) /\ r.fa # <<>> /\ ~CoordMismatch(r)) =>
-                              \A p \in RIdx(r.out) :
-                                  LET o == r.out[p]  seq == BinSeq(r.fa, o.c, o.s, o.e) IN
-                                  /\ r.hasgc => GcOK(o.gc, seq)
-                                  /\ r.hasrm => RmaskOK(o.rm, seq)
+      [] c = "pool_gc" -> \A p \in RIdx(r.out) :
+                              LET o == r.out[p]  seq == BinSeq(r.fa, o.c, o.s, o.e) IN
+                              /\ r.hasgc => GcOK(o.gc, seq)
+                              /\ r.hasrm => RmaskOK(o.rm, seq)
          (* ---- flat reference *)
       [] c \in {"flat_noerr", "gc_noerr"} -> NoErr(r)
-      [] c = "flat_bins" -> NoErr(r) => BinsExactly(OutRows(r), r.tbins, IF r.anti THEN r.abins ELSE <<>>, TRUE)
+      [] c = "flat_bins" -> BinsExactly(OutRows(r), r.tbins, IF r.anti THEN r.abins ELSE <<>>, TRUE)
          (* "A flat reference is 0 on autosomes, -1 on Y, and -1 on X only for a male reference" *)
-      [] c = "flat_log2" -> NoErr(r) => \A p \in RIdx(r.out) :
-                                            r.out[p].lok /\ r.out[p].l4 = 4 * FlatLevel(OutRow(r.out[p]), r.hapx)
+      [] c = "flat_log2" -> \A p \in RIdx(r.out) :
+                                r.out[p].lok /\ r.out[p].l4 = 4 * FlatLevel(OutRow(r.out[p]), r.hapx)
          (* "gc is the G+C fraction of unambiguous bases and rmask the lowercase fraction of each bin's sequence" *)
-      [] c = "flat_gc" -> (NoErr(r) /\ r.fa # <<>>) =>
-                              (r.hasgc /\ \A p \in RIdx(r.out) :
-                                  GcOK(r.out[p].gc, BinSeq(r.fa, r.out[p].c, r.out[p].s, r.out[p].e)))
-      [] c = "flat_rmask" -> (NoErr(r) /\ r.fa # <<>>) =>
-                              (r.hasrm /\ \A p \in RIdx(r.out) :
-                                  RmaskOK(r.out[p].rm, BinSeq(r.fa, r.out[p].c, r.out[p].s, r.out[p].e)))
-      [] c = "gc_value" -> NoErr(r) => GcOK(r.gc, BinSeq(<<<<1, r.contig>>>>, 1, r.s, r.e))
-      [] c = "rmask_value" -> NoErr(r) => RmaskOK(r.rm, BinSeq(<<<<1, r.contig>>>>, 1, r.s, r.e))
+      [] c = "flat_gc" -> r.hasgc /\ \A p \in RIdx(r.out) :
+                              GcOK(r.out[p].gc, BinSeq(r.fa, r.out[p].c, r.out[p].s, r.out[p].e))
+      [] c = "flat_rmask" -> r.hasrm /\ \A p \in RIdx(r.out) :
+                              RmaskOK(r.out[p].rm, BinSeq(r.fa, r.out[p].c, r.out[p].s, r.out[p].e))
+      [] c = "gc_value" -> GcOK(r.gc, BinSeq(<<<<1, r.contig>>>>, 1, r.s, r.e))
+      [] c = "rmask_value" -> RmaskOK(r.rm, BinSeq(<<<<1, r.contig>>>>, 1, r.s, r.e))
+Holds(c, r) == Applies(c, r) => Claim(c, r)
 
 (* ---------------------------------------------------------------------------------------------- premise *)
 RowsOK(t) == \A k \in RIdx(t) : t[k][1] \in 1..25 /\ 0 <= t[k][2] /\ t[k][2] < t[k][3]
-DisjointCoords(t, a) == \A i \in RIdx(t), j \in RIdx(a) : Coord(t[i]) # Coord(a[j])
+DisjointCoords(t, a) == {Coord(t[i]) : i \in RIdx(t)} \cap {Coord(a[j]) : j \in RIdx(a)} = {}
 FileOK(r, smp, k) ==
     LET bins == FileBins(r, smp, k)  v == FileVals(smp, k)  dz == FileDz(smp, k) IN
     /\ Len(v) = Len(bins) /\ Len(dz) = Len(bins)
@@ -439,11 +451,11 @@ Drift(r) ==
     CASE r.op = "pooled" ->
            \/ NoErr(r) = ErrA(r)
            \/ ~NoErr(r) /\ r.errtype # "RuntimeError"
-           \/ NoErr(r) /\ OutRows(r) # OutRowsA(r)
+           \/ NoErr(r) /\ ~BinsExactly(OutRows(r), CohortBins(r, "t"), CohortBins(r, "a"), TRUE)
            \/ r.used # <<>> /\ r.used # UsedA(r)
-           \/ NoErr(r) /\ FixOff(r) /\ r.hasgraph /\ OutRows(r) = OutRowsA(r) /\ ~ColumnsLoggedA(r)
+           \/ NoErr(r) /\ FixOff(r) /\ r.hasgraph /\ ~ColumnsLoggedA(r)
       [] r.op = "flat" ->
-           \/ NoErr(r) /\ OutRows(r) # FlatRowsA(r)
+           \/ NoErr(r) /\ ~BinsExactly(OutRows(r), r.tbins, IF r.anti THEN r.abins ELSE <<>>, TRUE)
            \/ NoErr(r) /\ \E p \in RIdx(r.out) : r.out[p].l4 # 4 * FlatLevelA(r.pfx, OutRow(r.out[p]), r.hapx)
            \/ NoErr(r) /\ r.fa # <<>> /\ r.hasgc /\ r.hasrm /\ \E p \in RIdx(r.out) :
                  LET g == GcLoA(BinSeq(r.fa, r.out[p].c, r.out[p].s, r.out[p].e)) IN
@@ -464,6 +476,6 @@ TriggerHolds(t, r) ==
                   /\ r.samples[j].sex = "M" /\ r.used[j] # "M"
                   /\ \E b \in RIdx(Blocks(r)) :
                         LET bins == FileBins(r, r.samples[j], Blocks(r)[b]) IN
-                        \E i \in RIdx(bins) : BinClass(bins[i]) = "Y"
+                        Cardinality({i \in RIdx(bins) : BinClass(bins[i]) = "Y"}) = 1
       [] OTHER -> FALSE
 =============================================================================
